@@ -172,6 +172,19 @@ def feeds(ops, outs, slot=None):
     return [(op[2], o) for op, o in zip(ops, outs) if op[0] in ('feed', 'feed_di', 'pipe') and (slot is None or op[1] == slot)]
 
 
+def feeds_since_reset(ops, outs, slot='a'):
+    """feeds of one slot after its last reset (t counts inputs since construction/reset)"""
+    last = -1
+    for i, op in enumerate(ops):
+        if op[0] == 'reset' and op[1] == slot: last = i
+    return [(op[2], o) for i, (op, o) in enumerate(zip(ops, outs)) if i > last and op[0] in ('feed', 'feed_di', 'pipe') and op[1] == slot]
+
+
+def with_reset_prefix(ops, prefix_values, slot='a'):
+    """[new, feeds..] -> [new, feed prefix.., reset, feeds..]"""
+    return [ops[0]] + [('feed', slot, v) for v in prefix_values] + [('reset', slot)] + list(ops[1:])
+
+
 def confirm_native(ops_f, obligations_fn, profiles=('dev', 'release')):
     """run natively, evaluate the obligations with exact rationals; -> (violated labels, lines, detail)"""
     import math
